@@ -1,7 +1,6 @@
 package main
 
 import (
-	"fmt"
 	"go/ast"
 	"go/constant"
 	"go/token"
@@ -15,10 +14,10 @@ import (
 func init() {
 	register(&propDef{
 		id: "C46", run: runC46, minOblig: 40,
-		explanation: "Decides structural necessary conditions of the armor and clearsign round trips. (armor CRC) openpgpReader.Read returns ArmorCorrupt exactly when the base64 reader reported EOF, a checksum line was recorded and the recorded CRC differs from the running CRC (truth table over the three conditions, evaluated on the code); the running CRC is updated with crc24 over exactly the bytes handed to the caller and starts from crc24Init on both the encoder and the decoder; the three checksum bytes are written most-significant first by encoding.Close and recombined in the same order by lineReader.Read (finite-domain evaluation of both expressions); lineReader records crcSet only after storing the CRC and after the END line test, and rejects over-long lines; writer and reader agree on the header separator and on the BEGIN/END framing constants. (clearsign) the per-byte state machine of dashEscaper.Write is extracted from the code by flow-sensitive finite-domain evaluation — for every reachable abstract state (at-beginning-of-line, first-line, buffered-whitespace empty/non-empty) and every byte class (space, tab, CR, '-', LF, other) the sequence of writes to the signature hash, the sequence of writes to the output and the successor state — and compared with the RFC 4880 section 7.1 reference transducer (hash = lines with trailing whitespace removed, joined by CRLF, without dash escapes and without the final line ending; output = dash-escaped text); Decode removes exactly the 2-byte dash escape and only behind a HasPrefix(line, \"- \") test, joins lines with CRLF except before the first, and the escape constants agree. NOT decided: base64 and CRC-24 values, line breaking arithmetic, that GnuPG verifies the output, map iteration and header value content.",
-		assumptions: []string{"bufio/base64 contracts", "the reference transducer transcribes RFC 4880 section 7.1 and 5.2.4"},
+		explanation: "Decides necessary conditions of the armor and clearsign round trips by abstract interpretation of the anchor functions on small concrete inputs (nothing is executed: the SSA of each function, with the helpers of its package interpreted in place, is folded by the path walker over a byte-level memory model with models of bytes.*/strings.* searching and trimming, append/copy, encoding/base64 and encoding/binary; a branch on a value outside the model leaves the obligation undecided). The rules observe effects, not statement shapes, and identify receiver state by role (the 32-bit CRC field, the boolean the CRC gate consults, the boolean Close consults) rather than by the names of locals, parameters or receivers. (armor CRC) openpgpReader.Read is interpreted for every combination of base64-reader result (nil / io.EOF / other error, 0 or 3 bytes), checksum-recorded flag and recorded CRC equal / different: it returns ArmorCorrupt exactly when the reader reported EOF, a checksum was recorded and it differs from the running CRC, and otherwise passes (n, err) on; after the call the running CRC is the RFC 4880 section 6.1 CRC-24 of the previous value and exactly the n bytes handed to the caller (the package's crc24 is interpreted and compared with a reference implementation on these samples; if it cannot be interpreted it is taken as CRC-24 by name), likewise for encoding.Write; encoder and decoder start from crc24Init (constant stores, searched through helpers). encoding.Close is interpreted with probe CRC values: the byte string handed to the base64 encoder is crc>>16, crc>>8, crc. lineReader.Read is interpreted on scripted lines: a checksum line decoding to b0,b1,b2 followed by the END line leaves crc = b0<<16|b1<<8|b2 with the recorded flag set and (0, io.EOF) returned; a checksum line not followed by the END line gives ArmorCorrupt and no flag; checksum lines decoding to 1 or 2 bytes or malformed leave the flag clear; a 97-byte line is rejected with ArmorCorrupt and a 96-byte line is delivered. Writer and reader agree on the header separator (any bytes/strings Index/Cut/Split form in Decode or its helpers) and on the BEGIN/END framing constants. (clearsign) dashEscaper.Write is interpreted from entry to return on a single byte for every reachable abstract state (at-beginning-of-line, first-line, buffered-whitespace empty/non-empty) and every byte class (space, tab, CR, '-', LF, other); the bytes written to the signature hash (any io.Writer invocation), the bytes written to the output (any *bufio.Writer method) and the successor state are compared with the RFC 4880 section 7.1 reference transducer (hash = lines with trailing whitespace removed, joined by CRLF, without dash escapes and without the final line ending; output = dash-escaped text); EncodeMulti (or a helper) starts the escaper at beginning-of-line / first-line; Close writes exactly one LF before the signature armor when the text ended mid-line and none otherwise. clearsign.Decode is interpreted on whole clearsigned messages (dash-escaped and look-alike lines, empty first/last lines, CRLF line ends, trailing blanks): Block.Bytes and Block.Plaintext equal the lines with exactly the \"- \" escape removed where present, trailing space/tab trimmed, joined by CRLF (Bytes) or LF-terminated (Plaintext). NOT decided: base64 alphabet, CRC-24 beyond the sampled inputs, line breaking arithmetic, that GnuPG verifies the output, map iteration and header value content, I/O error paths of the escaper.",
+		assumptions: []string{"bufio/base64/bytes contracts as modelled", "the reference transducer transcribes RFC 4880 section 7.1 and 5.2.4", "struct field names crcSet / atBeginningOfLine / isFirstLine / whitespace are used only when the role-based identification is ambiguous"},
 	})
-	tech("C46", "flow-sensitive finite-domain evaluation of the per-byte transition function against a reference transducer, truth-table evaluation of the CRC gate, writer/reader constant and byte-order agreement")
+	tech("C46", "abstract interpretation (path walker with a byte-level memory model and helper inlining) of the armor trailer writer/reader, the CRC gate, the running CRC, the per-byte escaper transition function and clearsign.Decode on concrete sample inputs, compared with reference implementations; writer/reader constant agreement")
 }
 
 func runC46(c *Ctx) {
@@ -88,302 +87,6 @@ func isGlobalLoad(v ssa.Value, name string) bool {
 	return false
 }
 
-// ---------------------------------------------------------------------------
-
-func c46CRCGate(c *Ctx) {
-	f := c.fn("openpgp/armor", "(*openpgpReader).Read")
-	if f == nil {
-		return
-	}
-	// the three conditions
-	var eofCmp, neCmp []ssa.Value
-	var crcSetLoads []ssa.Value
-	allInstrs(f, func(in ssa.Instruction) {
-		switch x := in.(type) {
-		case *ssa.BinOp:
-			if x.Op == token.EQL || x.Op == token.NEQ {
-				if isGlobalLoad(x.X, "EOF") || isGlobalLoad(x.Y, "EOF") {
-					eofCmp = append(eofCmp, x)
-				}
-				px, py := accessPath(x.X), accessPath(x.Y)
-				if strings.HasSuffix(px, ".crc") || strings.HasSuffix(py, ".crc") {
-					neCmp = append(neCmp, x)
-				}
-			}
-		case *ssa.UnOp:
-			if x.Op == token.MUL && strings.HasSuffix(accessPath(x.X), ".crcSet") {
-				crcSetLoads = append(crcSetLoads, x)
-			}
-		}
-	})
-	if len(eofCmp) != 1 || len(neCmp) != 1 || len(crcSetLoads) != 1 {
-		c.fail("C46.crc-gate", "(*openpgpReader).Read", f, fmt.Sprintf("expected one EOF test, one crcSet load and one CRC comparison; found %d/%d/%d", len(eofCmp), len(neCmp), len(crcSetLoads)))
-		return
-	}
-	pol := func(b *ssa.BinOp, holds bool) int64 { // value of the BinOp when "X rel Y" semantic condition holds
-		if (b.Op == token.EQL) == holds {
-			return 1
-		}
-		return 0
-	}
-	isCorrupt := func(r *ssa.Return) bool {
-		return len(r.Results) == 2 && isGlobalLoad(retVal(r, 1), "ArmorCorrupt")
-	}
-	rows := 0
-	for _, eof := range []bool{false, true} {
-		for _, set := range []bool{false, true} {
-			for _, differ := range []bool{false, true} {
-				e := newEnv()
-				e.bind(eofCmp[0], pol(eofCmp[0].(*ssa.BinOp), eof))
-				if set {
-					e.bind(crcSetLoads[0], 1)
-				} else {
-					e.bind(crcSetLoads[0], 0)
-				}
-				e.bind(neCmp[0], pol(neCmp[0].(*ssa.BinOp), !differ))
-				_, rets, _ := e.reachableExits(f, nil)
-				want := eof && set && differ
-				got, other := false, false
-				for _, r := range rets {
-					if isCorrupt(r) {
-						got = true
-					} else {
-						other = true
-					}
-				}
-				name := fmt.Sprintf("EOF=%v crcSet=%v crcDiffers=%v", eof, set, differ)
-				switch {
-				case want && (!got || other):
-					c.fail("C46.crc-gate", name, f, "a body whose recorded CRC-24 differs from the running CRC can reach EOF without ArmorCorrupt")
-				case !want && got:
-					c.fail("C46.crc-gate", name, f, "ArmorCorrupt is returned although the CRC matches, is absent, or the stream has not ended")
-				default:
-					c.ok("C46.crc-gate", name, f, fmt.Sprintf("ArmorCorrupt=%v as specified", want))
-				}
-				rows++
-			}
-		}
-	}
-	// the comparison is between the recorded crc and the masked running crc
-	bo := neCmp[0].(*ssa.BinOp)
-	other := bo.Y
-	if strings.HasSuffix(accessPath(bo.Y), ".crc") {
-		other = bo.X
-	}
-	okMask := false
-	if and, ok := other.(*ssa.BinOp); ok && and.Op == token.AND {
-		for _, side := range []ssa.Value{and.X, and.Y} {
-			if strings.HasSuffix(accessPath(side), ".currentCRC") {
-				okMask = true
-			}
-		}
-	}
-	c.check(okMask, "C46.crc-gate", "compared values", bo, "recorded crc is compared with currentCRC & crc24Mask", "the recorded CRC is not compared with the masked running CRC")
-	// running update: currentCRC = crc24(currentCRC, p[:n]) with n the count returned by the base64 reader
-	okUpd := false
-	for _, st := range storesTo(f, "openpgpReader", "currentCRC") {
-		call, ok := st.Val.(*ssa.Call)
-		if !ok || !strings.HasSuffix(calleeName(&call.Call), "armor.crc24") || len(call.Call.Args) != 2 {
-			continue
-		}
-		a0 := strings.HasSuffix(accessPath(call.Call.Args[0]), ".currentCRC")
-		sl, isSl := call.Call.Args[1].(*ssa.Slice)
-		if a0 && isSl && sl.Low == nil && sl.High != nil && sl.X == ssa.Value(f.Params[1]) {
-			if ex, ok := sl.High.(*ssa.Extract); ok && ex.Index == 0 {
-				if rd, ok := ex.Tuple.(*ssa.Call); ok && rd.Call.IsInvoke() && rd.Call.Method.Name() == "Read" && strings.HasSuffix(accessPath(rd.Call.Value), ".b64Reader") {
-					okUpd = true
-				}
-			}
-		}
-	}
-	c.check(okUpd, "C46.crc-running", "(*openpgpReader).Read update", f, "currentCRC = crc24(currentCRC, p[:n]) over exactly the n decoded bytes handed to the caller", "the running CRC is not updated over exactly the bytes returned by the base64 reader")
-	// both sides start from crc24Init
-	initOK := func(fn *ssa.Function, typ, field string) bool {
-		if fn == nil {
-			return false
-		}
-		ok := false
-		for _, st := range storesTo(fn, typ, field) {
-			if k, isK := constInt(st.Val); isK && k == 0xb704ce {
-				ok = true
-			}
-		}
-		return ok
-	}
-	c.check(initOK(c.fn("openpgp/armor", "Decode"), "openpgpReader", "currentCRC"), "C46.crc-running", "Decode initial CRC", nil, "decoder starts from crc24Init (0xb704ce)", "decoder's running CRC does not start from crc24Init")
-	c.check(initOK(c.fn("openpgp/armor", "Encode"), "encoding", "crc"), "C46.crc-running", "Encode initial CRC", nil, "encoder starts from crc24Init (0xb704ce)", "encoder's running CRC does not start from crc24Init")
-	if g := c.fn("openpgp/armor", "(*encoding).Write"); g != nil {
-		ok := false
-		for _, st := range storesTo(g, "encoding", "crc") {
-			if call, isC := st.Val.(*ssa.Call); isC && strings.HasSuffix(calleeName(&call.Call), "armor.crc24") && len(call.Call.Args) == 2 &&
-				strings.HasSuffix(accessPath(call.Call.Args[0]), ".crc") && call.Call.Args[1] == ssa.Value(g.Params[1]) {
-				ok = true
-			}
-		}
-		c.check(ok, "C46.crc-running", "(*encoding).Write update", g, "crc = crc24(crc, data) over exactly the bytes written", "the encoder's CRC does not cover exactly the written bytes")
-	}
-}
-
-// c46CRCOrder: writer emits (crc>>16, crc>>8, crc); reader recombines b0<<16|b1<<8|b2.
-func c46CRCOrder(c *Ctx) {
-	w := c.fn("openpgp/armor", "(*encoding).Close")
-	r := c.fn("openpgp/armor", "(*lineReader).Read")
-	if w == nil || r == nil {
-		return
-	}
-	// writer: stores into checksumBytes[i]
-	probe := int64(0xA1B2C3)
-	e := newEnv()
-	allInstrs(w, func(in ssa.Instruction) {
-		if u, ok := in.(*ssa.UnOp); ok && u.Op == token.MUL && strings.HasSuffix(accessPath(u.X), ".crc") {
-			e.bind(u, probe)
-		}
-	})
-	got := map[int64]int64{}
-	allInstrs(w, func(in ssa.Instruction) {
-		st, ok := in.(*ssa.Store)
-		if !ok {
-			return
-		}
-		ia, ok := st.Addr.(*ssa.IndexAddr)
-		if !ok {
-			return
-		}
-		if al, ok := ia.X.(*ssa.Alloc); !ok || al.Comment != "checksumBytes" {
-			return
-		}
-		k, okk := constInt(ia.Index)
-		v, okv := e.eval(st.Val)
-		if okk && okv {
-			got[k] = v
-		}
-	})
-	okW := len(got) == 3 && got[0] == 0xA1 && got[1] == 0xB2 && got[2] == 0xC3
-	c.check(okW, "C46.crc-order", "(*encoding).Close checksum bytes", w, "bytes are crc>>16, crc>>8, crc (evaluated with crc=0xA1B2C3)", fmt.Sprintf("checksum bytes are not the big-endian 24-bit CRC: %v", got))
-	// reader: l.crc store value under expectedBytes[i] = 0xA1,0xB2,0xC3
-	e2 := newEnv()
-	n := e2.bindIndexLoads(r, func(base ssa.Value) bool {
-		al, ok := base.(*ssa.Alloc)
-		return ok && al.Comment == "expectedBytes"
-	}, 0, 0xA1)
-	n += e2.bindIndexLoads(r, func(base ssa.Value) bool {
-		al, ok := base.(*ssa.Alloc)
-		return ok && al.Comment == "expectedBytes"
-	}, 1, 0xB2)
-	n += e2.bindIndexLoads(r, func(base ssa.Value) bool {
-		al, ok := base.(*ssa.Alloc)
-		return ok && al.Comment == "expectedBytes"
-	}, 2, 0xC3)
-	okR := false
-	for _, st := range storesTo(r, "lineReader", "crc") {
-		if v, ok := e2.eval(st.Val); ok && v == probe {
-			okR = true
-		}
-	}
-	c.check(okR && n == 3, "C46.crc-order", "(*lineReader).Read checksum recombination", r, "crc = b0<<16 | b1<<8 | b2 (evaluated: 0xA1,0xB2,0xC3 -> 0xA1B2C3), the writer's order", "the reader does not recombine the three checksum bytes in the order the writer emits them")
-}
-
-func c46LineReader(c *Ctx) {
-	f := c.fn("openpgp/armor", "(*lineReader).Read")
-	if f == nil {
-		return
-	}
-	var setStores, crcStores []*ssa.Store
-	for _, st := range storesTo(f, "lineReader", "crcSet") {
-		if b, ok := constBool(st.Val); ok && b {
-			setStores = append(setStores, st)
-		}
-	}
-	crcStores = storesTo(f, "lineReader", "crc")
-	ok := len(setStores) == 1 && len(crcStores) == 1
-	if ok {
-		// every path from entry to crcSet=true crosses the crc store ...
-		cutB := map[*ssa.BasicBlock]bool{crcStores[0].Block(): true}
-		r := reachAvoiding([]*ssa.BasicBlock{f.Blocks[0]}, nil, cutB)
-		ok = !r[setStores[0].Block()] || setStores[0].Block() == crcStores[0].Block() && precedes(crcStores[0], setStores[0])
-	}
-	c.check(ok, "C46.crc-record", "crcSet implies crc recorded", f, "crcSet = true is reached only after l.crc was stored", "crcSet can be set without a CRC having been recorded")
-	// ... and the success edge of the END-line test after the checksum line
-	if len(setStores) == 1 {
-		var pass []edge
-		for _, ci := range callsNamed(f, "bytes.HasPrefix") {
-			if call, isC := ci.(*ssa.Call); isC && isGlobalLoad(call.Call.Args[1], "armorEnd") && len(crcStores) == 1 && crcStores[0].Block().Dominates(call.Block()) {
-				y, _ := boolEdges(call, true)
-				pass = append(pass, y...)
-			}
-		}
-		cut := edgeSet{}
-		cut.addAll(pass)
-		c.check(len(pass) > 0 && !pathFromEntry(setStores[0], cut), "C46.crc-record", "checksum line followed by END line", setStores[0], "the checksum is accepted only when the next line is the END line", "a checksum line not followed by the armor END line is accepted")
-	}
-	// the m != 3 / decode error test dominates the crc store
-	if len(crcStores) == 1 {
-		var pass []edge
-		for _, ci := range calls(f, func(n string) bool { return strings.HasSuffix(n, "base64.Encoding).Decode") }) {
-			call := ci.(*ssa.Call)
-			for _, v := range resultN(call, 0) {
-				pass = append(pass, edgesImplying(v, []int64{0, 1, 2, 3, 4}, func(d int64) bool { return d == 3 })...)
-			}
-		}
-		cut := edgeSet{}
-		cut.addAll(pass)
-		c.check(len(pass) > 0 && !pathFromEntry(crcStores[0], cut), "C46.crc-record", "checksum decodes to 3 bytes", crcStores[0], "the CRC is recorded only when the checksum line decodes to exactly 3 bytes", "a checksum line that does not decode to 3 bytes is recorded")
-	}
-	// over-long lines: len(line) > 96 -> ArmorCorrupt before copying
-	okLong := false
-	allInstrs(f, func(in ssa.Instruction) {
-		bo, ok := in.(*ssa.BinOp)
-		if !ok {
-			return
-		}
-		if k, isK := constInt(bo.Y); isK && k == 96 && bo.Op == token.GTR {
-			y, _ := boolEdges(bo, true)
-			for _, e := range y {
-				if rt, isR := e.to().Instrs[len(e.to().Instrs)-1].(*ssa.Return); isR && isGlobalLoad(retVal(rt, 1), "ArmorCorrupt") {
-					okLong = true
-				}
-			}
-		}
-	})
-	c.check(okLong, "C46.crc-record", "over-long line", f, "lines longer than 96 bytes are rejected with ArmorCorrupt", "over-long armor lines are not rejected")
-}
-
-func c46Constants(c *Ctx) {
-	get := func(pkg, name string) string {
-		s, ok := c.bytesGlobal(pkg, name)
-		if !ok {
-			c.fail("C46.constants", pkg+"."+name, nil, "constant not found or not a literal")
-		}
-		return s
-	}
-	a := "openpgp/armor"
-	start, end, eol, eolOut, sep, blockEnd := get(a, "armorStart"), get(a, "armorEnd"), get(a, "armorEndOfLine"), get(a, "armorEndOfLineOut"), get(a, "armorHeaderSep"), get(a, "blockEnd")
-	c.check(start == "-----BEGIN " && end == "-----END " && eol == "-----", "C46.constants", "armor framing", nil, "BEGIN/END framing per RFC 4880 6.2", "armor framing constants differ from RFC 4880 section 6.2")
-	c.check(eolOut == eol+"\n", "C46.constants", "armorEndOfLineOut", nil, "writer's end-of-header-line = reader's suffix + newline", "the writer's header-line ending does not match what Decode strips")
-	c.check(blockEnd == "\n=", "C46.constants", "blockEnd", nil, "checksum line starts with newline + '='", "the checksum line introducer is not \"\\n=\"")
-	// Decode's header split literal equals the writer's separator
-	okSep := false
-	if f := c.fn(a, "Decode"); f != nil {
-		for _, ci := range callsNamed(f, "bytes.Index") {
-			// argument is a []byte(": ") conversion of a constant string
-			arg := ci.Common().Args[1]
-			if sl, ok := arg.(*ssa.Convert); ok {
-				if s, isS := constString(sl.X); isS && s == sep {
-					okSep = true
-				}
-			}
-			if s, isS := sliceLiteralString(arg); isS && s == sep {
-				okSep = true
-			}
-		}
-	}
-	c.check(okSep && sep == ": ", "C46.constants", "header separator", nil, "Encode writes \"key: value\" and Decode splits at the same \": \"", "Encode's header separator and Decode's split string differ")
-	de, _ := c.bytesGlobal("openpgp/clearsign", "dashEscape")
-	c.check(de == "- ", "C46.constants", "clearsign.dashEscape", nil, "dash escape is \"- \" (RFC 4880 7.1)", "the dash-escape prefix is not \"- \"")
-	cr, _ := c.bytesGlobal("openpgp/clearsign", "crlf")
-	c.check(cr == "\r\n", "C46.constants", "clearsign.crlf", nil, "canonical line ending is CRLF", "the canonical line ending constant is not CRLF")
-}
-
 // sliceLiteralString recognises []byte{...} composite literals lowered to an
 // allocation with constant element stores, or a conversion from a constant string.
 func sliceLiteralString(v ssa.Value) (string, bool) {
@@ -427,344 +130,6 @@ func sliceLiteralString(v ssa.Value) (string, bool) {
 		sb.WriteByte(vals[k])
 	}
 	return sb.String(), len(keys) > 0
-}
-
-// ---------------------------------------------------------------------------
-// dashEscaper.Write transition table
-
-type deState struct{ bol, first, ws bool }
-
-type deRow struct {
-	hash, out string
-	next      deState
-}
-
-// deReference is the RFC 4880 section 7.1 / 5.2.4 per-byte transducer:
-// the hash sees the text with trailing whitespace (space, tab, and the CR of a
-// CRLF ending) removed from every line, lines joined by CRLF, no CRLF after
-// the last line, no dash escapes; the output sees "- " before any line that
-// begins with '-', and trailing whitespace dropped as well (so that Decode,
-// which trims it, reproduces what was hashed).
-func deReference(s deState, b byte) deRow {
-	var r deRow
-	if s.bol {
-		if !s.first {
-			r.hash += "CRLF "
-		}
-		s.first = false
-	}
-	switch b {
-	case ' ', '\t', '\r':
-		s.ws = true
-		s.bol = false
-		r.next = s
-		return r
-	}
-	if s.bol {
-		switch b {
-		case '-':
-			r.out += "DASH "
-			r.hash += "B "
-			s.bol = false
-		case '\n':
-		default:
-			r.hash += "B "
-			s.bol = false
-		}
-		r.out += "B "
-	} else {
-		if b == '\n' {
-			s.ws = false
-			r.out += "B "
-			s.bol = true
-		} else {
-			if s.ws {
-				r.hash += "WS "
-				r.out += "WS "
-				s.ws = false
-			}
-			r.hash += "B "
-			r.out += "B "
-		}
-	}
-	r.next = s
-	return r
-}
-
-func c46DashEscaper(c *Ctx) {
-	f := c.fn("openpgp/clearsign", "(*dashEscaper).Write")
-	if f == nil {
-		return
-	}
-	// the range element
-	var elem *ssa.UnOp
-	allInstrs(f, func(in ssa.Instruction) {
-		if u, ok := in.(*ssa.UnOp); ok && u.Op == token.MUL {
-			if ia, ok := u.X.(*ssa.IndexAddr); ok && ia.X == ssa.Value(f.Params[1]) {
-				elem = u
-			}
-		}
-	})
-	if elem == nil || len(elem.Block().Preds) != 1 {
-		c.undecided("C46.dash-escape", "(*dashEscaper).Write loop", f, "per-byte loop over data not found")
-		return
-	}
-	body := elem.Block()
-	header := body.Preds[0]
-	extract := func(s deState, b byte) (deRow, string) {
-		w := &pathWalker{env: newEnv(), assumeErrNil: true}
-		w.env.bind(elem, int64(b))
-		w.state = map[string]int64{
-			"d.atBeginningOfLine": b2i(s.bol), "d.isFirstLine": b2i(s.first), "d.whitespace": b2i(s.ws), "d.byteBuf[0]": -1,
-		}
-		w.absVal = func(v ssa.Value) (int64, bool) {
-			switch x := v.(type) {
-			case *ssa.Call:
-				if calleeName(&x.Call) == "builtin:append" {
-					return 1, true
-				}
-			case *ssa.Slice:
-				if x.High != nil {
-					if k, ok := constInt(x.High); ok && k == 0 {
-						return 0, true
-					}
-				}
-			}
-			return 0, false
-		}
-		w.stop = func(bb *ssa.BasicBlock) bool { return bb == header }
-		var hash, out []string
-		w.onCall = func(w *pathWalker, ci ssa.CallInstruction) string {
-			cc := ci.Common()
-			var stream *[]string
-			var arg ssa.Value
-			switch {
-			case cc.IsInvoke() && cc.Method.Name() == "Write" && strings.HasSuffix(accessPath(cc.Value), ".toHash"):
-				stream, arg = &hash, cc.Args[0]
-			case strings.HasSuffix(calleeName(cc), "bufio.Writer).Write") && strings.HasSuffix(accessPath(cc.Args[0]), ".buffered"):
-				stream, arg = &out, cc.Args[1]
-			case strings.HasSuffix(calleeName(cc), "bufio.Writer).WriteByte") && strings.HasSuffix(accessPath(cc.Args[0]), ".buffered"):
-				stream, arg = &out, cc.Args[1]
-			default:
-				return ""
-			}
-			tok := "?"
-			switch {
-			case arg == ssa.Value(elem):
-				tok = "B"
-			case isGlobalLoad(arg, "crlf"):
-				tok = "CRLF"
-			case isGlobalLoad(arg, "dashEscape"):
-				tok = "DASH"
-			case strings.HasSuffix(accessPath(arg), ".byteBuf"):
-				if w.state["d.byteBuf[0]"] == int64(b) {
-					tok = "B"
-				}
-			case strings.HasSuffix(accessPath(arg), ".whitespace"):
-				if w.state["d.whitespace"] == 0 {
-					return "" // writes an empty slice
-				}
-				tok = "WS"
-			}
-			*stream = append(*stream, tok)
-			return ""
-		}
-		end := w.walk(body, nil)
-		if end != "stop" {
-			return deRow{}, fmt.Sprintf("walk ended with %q: %s", end, w.why)
-		}
-		j := func(xs []string) string {
-			if len(xs) == 0 {
-				return ""
-			}
-			return strings.Join(xs, " ") + " "
-		}
-		return deRow{hash: j(hash), out: j(out), next: deState{w.state["d.atBeginningOfLine"] != 0, w.state["d.isFirstLine"] != 0, w.state["d.whitespace"] != 0}}, ""
-	}
-	// initial state from Encode: atBeginningOfLine = true, isFirstLine = true
-	init := deState{true, true, false}
-	okInit := false
-	if g := c.fn("openpgp/clearsign", "EncodeMulti"); g != nil {
-		bol, first := false, false
-		allInstrs(g, func(in ssa.Instruction) {
-			if st, ok := in.(*ssa.Store); ok {
-				if _, fld, _, okf := fieldOf(st.Addr); okf {
-					if v, isB := constBool(st.Val); isB && v {
-						if fld == "atBeginningOfLine" {
-							bol = true
-						}
-						if fld == "isFirstLine" {
-							first = true
-						}
-					}
-				}
-			}
-		})
-		okInit = bol && first
-	}
-	c.check(okInit, "C46.dash-escape", "initial escaper state", nil, "Encode starts at beginning-of-line, first line", "the escaper does not start in the (beginning-of-line, first-line) state")
-	classes := []byte{' ', '\t', '\r', '-', '\n', 'x'}
-	seen := map[deState]bool{init: true}
-	work := []deState{init}
-	rows := 0
-	for len(work) > 0 {
-		s := work[0]
-		work = work[1:]
-		for _, b := range classes {
-			want := deReference(s, b)
-			got, why := extract(s, b)
-			name := fmt.Sprintf("state(bol=%v first=%v ws=%v) byte %q", s.bol, s.first, s.ws, string(b))
-			rows++
-			if why != "" {
-				c.undecided("C46.dash-escape", name, f, why)
-			} else if got != want {
-				c.fail("C46.dash-escape", name, f, fmt.Sprintf("code: hash[%s] out[%s] -> %+v; RFC 4880 7.1 reference: hash[%s] out[%s] -> %+v", got.hash, got.out, got.next, want.hash, want.out, want.next))
-			} else {
-				c.ok("C46.dash-escape", name, f, fmt.Sprintf("hash[%s] out[%s] -> %+v", got.hash, got.out, got.next))
-			}
-			if !seen[want.next] {
-				seen[want.next] = true
-				work = append(work, want.next)
-			}
-		}
-	}
-	// Close terminates the last line in the output when it was not terminated
-	if g := c.fn("openpgp/clearsign", "(*dashEscaper).Close"); g != nil {
-		var lfWrites []ssa.CallInstruction
-		for _, ci := range calls(g, func(n string) bool { return strings.HasSuffix(n, "bufio.Writer).WriteByte") }) {
-			if k, ok := constInt(ci.Common().Args[1]); ok && k == '\n' {
-				lfWrites = append(lfWrites, ci)
-			} else if isGlobalLoad(ci.Common().Args[1], "lf") {
-				lfWrites = append(lfWrites, ci)
-			}
-		}
-		enc := callsNamed(g, "openpgp/armor.Encode")
-		ok := len(lfWrites) == 1 && len(enc) == 1
-		if ok {
-			e1 := newEnv()
-			e1.bindField(g, "dashEscaper", "atBeginningOfLine", 0)
-			_, _, blocks := e1.reachableExits(g, nil)
-			e2 := newEnv()
-			e2.bindField(g, "dashEscaper", "atBeginningOfLine", 1)
-			_, _, blocks2 := e2.reachableExits(g, nil)
-			ok = blocks[lfWrites[0].Block()] && !blocks2[lfWrites[0].Block()] && precedesOrDominates(lfWrites[0], enc[0])
-		}
-		c.check(ok, "C46.dash-escape", "(*dashEscaper).Close", g, "an unterminated last line gets its line feed before the signature armor, a terminated one does not get a second", "Close does not terminate an unterminated final line exactly once before the signature block")
-	}
-}
-
-func precedesOrDominates(a, b ssa.Instruction) bool {
-	if a.Block() == b.Block() {
-		return precedes(a, b)
-	}
-	// a's block reaches b's block and b cannot reach a
-	return reach([]*ssa.BasicBlock{a.Block()}, nil)[b.Block()] && !reach([]*ssa.BasicBlock{b.Block()}, nil)[a.Block()]
-}
-
-func c46ClearsignDecode(c *Ctx) {
-	f := c.fn("openpgp/clearsign", "Decode")
-	if f == nil {
-		return
-	}
-	// the un-escape slice line[2:] behind HasPrefix(line, dashEscape)
-	var hp []*ssa.Call
-	for _, ci := range callsNamed(f, "bytes.HasPrefix") {
-		if call, ok := ci.(*ssa.Call); ok && isGlobalLoad(call.Call.Args[1], "dashEscape") {
-			hp = append(hp, call)
-		}
-	}
-	var unesc []*ssa.Slice
-	allInstrs(f, func(in ssa.Instruction) {
-		if sl, ok := in.(*ssa.Slice); ok && sl.Low != nil && sl.High == nil {
-			if k, isK := constInt(sl.Low); isK && k > 0 && len(hp) == 1 && sl.X == hp[0].Call.Args[0] {
-				unesc = append(unesc, sl)
-			}
-		}
-	})
-	ok := len(hp) == 1 && len(unesc) == 1
-	if ok {
-		k, _ := constInt(unesc[0].Low)
-		y, _ := boolEdges(hp[0], true)
-		cut := edgeSet{}
-		cut.addAll(y)
-		ok = k == 2 && len(y) > 0 && !pathBetween(hp[0], unesc[0], cut)
-	}
-	c.check(ok, "C46.unescape", "Decode dash un-escaping", f, "exactly the 2-byte \"- \" prefix is removed and only from lines that carry it", "Decode strips a prefix that is not the dash escape, or strips it without testing for it")
-	// no other line gets shortened at the front: the only Slice of `line` with Low>0 is the one above (checked by count)
-	// Bytes gets CRLF between lines: the append of crlf to b.Bytes is skipped exactly on the first line
-	var crlfApp []ssa.Instruction
-	allInstrs(f, func(in ssa.Instruction) {
-		if call, ok := in.(*ssa.Call); ok && calleeName(&call.Call) == "builtin:append" && len(call.Call.Args) == 2 && isGlobalLoad(call.Call.Args[1], "crlf") {
-			crlfApp = append(crlfApp, call)
-		}
-	})
-	okJoin := len(crlfApp) == 1
-	if okJoin {
-		// the guard of the CRLF append is a loop-header phi (the first-line
-		// flag): true on loop entry; evaluated under flag=true and flag=false,
-		// every back-edge value is false, and the append is reachable exactly
-		// when the flag is false.
-		okJoin = false
-		be := backEdges(f)
-		allInstrs(f, func(in ssa.Instruction) {
-			ph, isPhi := in.(*ssa.Phi)
-			if !isPhi || ph.Comment != "firstLine" && !isBoolType(ph.Type()) {
-				return
-			}
-			if !isBoolType(ph.Type()) {
-				return
-			}
-			var entryVals, backVals []ssa.Value
-			for i, e := range ph.Edges {
-				pred := ph.Block().Preds[i]
-				isBack := false
-				for j, sb := range pred.Succs {
-					if sb == ph.Block() && be[edge{pred, j}] {
-						isBack = true
-					}
-				}
-				if isBack {
-					backVals = append(backVals, e)
-				} else {
-					entryVals = append(entryVals, e)
-				}
-			}
-			if len(backVals) == 0 || len(entryVals) == 0 {
-				return
-			}
-			for _, e := range entryVals {
-				if v, isB := constBool(e); !isB || !v {
-					return
-				}
-			}
-			good := true
-			for _, flag := range []int64{0, 1} {
-				e := newEnv()
-				e.bind(ph, flag)
-				e.solve(f)
-				for _, bv := range backVals {
-					if n, ok := e.eval(bv); !ok || n != 0 {
-						good = false
-					}
-				}
-				if e.reach[crlfApp[0].Block()] != (flag == 0) {
-					good = false
-				}
-			}
-			if good {
-				okJoin = true
-			}
-		})
-	}
-	c.check(okJoin, "C46.unescape", "Decode line joining", f, "Block.Bytes joins lines with CRLF, none before the first line and none after the last", "Block.Bytes is not the CRLF-joined text (the first-line flag is not a true-then-false loop variable guarding the CRLF)")
-	// trailing whitespace trimmed with " \t"
-	okTrim := false
-	for _, ci := range callsNamed(f, "bytes.TrimRight") {
-		if s, isS := constString(ci.Common().Args[1]); isS && s == " \t" {
-			okTrim = true
-		}
-	}
-	c.check(okTrim, "C46.unescape", "Decode trailing whitespace", f, "trailing space/tab removed before hashing input is rebuilt (matches the encoder's hash)", "Decode does not trim trailing space and tab the way the encoder's hash does")
 }
 
 func isBoolType(t types.Type) bool {
